@@ -51,6 +51,21 @@ def build(src):
         G = rng.choice(["X", "XY", "X$"])
         P, _ = U.random_pda(rng, k, S, G, ntrans=rng.randint(1, 7), eps=eps, prefix=rng.choice(["s", "q"]))
         return P
+    if src["kind"] == "pda_nfa_like":
+        # mostly stack-free, strongly nondeterministic: several successors per (state, letter), shared targets
+        rng = random.Random(src["seed"])
+        Q = U.names(rng.randint(2, 4), "s")
+        trans = []
+        for p in Q:
+            for a in "ab":
+                for q in Q:
+                    if rng.random() < 0.4:
+                        u, v = rng.choice([(eps, eps)] * 4 + [(eps, "X"), ("X", eps)])
+                        trans.append((p, a, u, q, v))
+        if rng.random() < 0.3:
+            trans.append((rng.choice(Q), eps, eps, rng.choice(Q), eps))
+        F = [q for q in Q if rng.random() < 0.4]
+        return U.make_pda(Q, "ab", "X", trans, Q[0], F, eps)
     if src["kind"] == "pda_trans":
         return U.make_pda(src["Q"], src["S"], src["G"], [tuple(t) for t in src["T"]], src["q0"], src["F"], eps)
     raise ValueError(src)
